@@ -6,6 +6,7 @@ package c10
 import (
 	"context"
 	"encoding/json"
+	"flag"
 	"fmt"
 	"net"
 	"os"
@@ -27,7 +28,13 @@ import (
 	"verif/rig/mesh"
 )
 
-func TestMain(m *testing.M) { registerPingPong(); mesh.Boot(); ev.Main(m) }
+func TestMain(m *testing.M) {
+	// every re-run of a failing case costs the 2.5 s stability window: bound rapid's shrinking (a default the command line can override)
+	_ = flag.Set("rapid.shrinktime", "20s")
+	registerPingPong()
+	mesh.Boot()
+	ev.Main(m)
+}
 
 // known root causes (listed in /verif/known.d/c10.json when confirmed against the unchanged tree)
 const (
